@@ -18,16 +18,64 @@ STOP_SIGS = (signal.SIGSTOP, signal.SIGTSTP)
 
 
 class Pipe:
-    """expected content in flight between two pipeline stages"""
+    """expected content in flight through one pipe, and who legitimately holds its ends"""
 
-    def __init__(self, label):
+    def __init__(self, label, writers=(), readers=()):
         self.label = label
         self.fifo = bytearray()
         self.opaque = False       # a non-puppet writer: content not modelled
-        self.writer_open = True   # the legitimate writer still holds the write end
-        self.reader_open = True
+        self.writers = set(writers)   # ("stage", idx) before the fork, (label, fd) afterwards
+        self.readers = set(readers)
         self.ino = None
         self.total = 0
+
+    @property
+    def writer_open(self):
+        return bool(self.writers)
+
+    @property
+    def reader_open(self):
+        return bool(self.readers)
+
+    def drop(self, label, fd=None):
+        for grp in (self.writers, self.readers):
+            for t in list(grp):
+                if t[0] == label and (fd is None or t[1] == fd):
+                    grp.discard(t)
+
+
+class OFD:
+    """an open file description on a regular file of the file model"""
+
+    def __init__(self, path, append):
+        self.path = path
+        self.append = append
+        self.off = 0
+
+
+class Std:
+    """one of the shell's own descriptors 0/1/2"""
+
+    def __init__(self, fd):
+        self.fd = fd
+
+
+class Group:
+    """one pipeline: the line's own, or the inner pipeline of a command substitution"""
+
+    def __init__(self, line_no, gi, capture, bg):
+        self.line_no = line_no
+        self.gi = gi
+        self.capture = capture
+        self.bg = bg
+        self.stages = []
+        self.pipes = []
+        self.fully_forked = False
+        self.launched = False      # the shell has forked every stage and released its pipe ends
+        self.forks_failed = 0
+        self.pipe_failed = False
+        self.cap_out = None
+        self.cap_err = None
 
 
 class Stage:
@@ -56,8 +104,16 @@ class Stage:
         self.buf = bytearray()            # model of the puppet's forward buffer
         self.finished_role = False
         self.epipe = False
+        self.group = None
+        self.objs = {}                    # fd -> Pipe | OFD | Std as the program should see them
+        self.wi = 0                       # talker: index of the next write
+        self.woff = 0                     # talker: bytes of that write already done
+        self.hs = None                    # here-string pipe
+        self.wired = False
 
     def label(self):
+        if self.group is not None and self.group.capture:
+            return "L%d.c%d.s%d" % (self.line_no, self.group.gi, self.idx)
         return "L%d.s%d" % (self.line_no, self.idx)
 
 
@@ -81,6 +137,7 @@ class Runner:
         self.done_msgs = []
         self.externals_done = set()
         self.result = {}
+        self.files = {}        # file model: absolute path -> bytearray
 
     # ---------------------------------------------------------------- shrinking support
     @classmethod
@@ -219,30 +276,61 @@ class Runner:
     def prepare_files(self):
         pass
 
+    def line_groups(self, line):
+        if "groups" in line:
+            return line["groups"]
+        return [{"stages": line["stages"], "capture": False, "bg": bool(line.get("bg"))}]
+
     def start_line(self):
         self.line_no += 1
         if self.line_no >= len(self.sc["lines"]):
             self.cur = None
             return
         line = self.sc["lines"][self.line_no]
-        stages = []
-        n = len(line["stages"])
-        for i, spec in enumerate(line["stages"]):
-            stages.append(Stage(spec, self.line_no, i, n))
-        pipes = [Pipe("L%d.p%d" % (self.line_no, i)) for i in range(n - 1)]
-        for i, st in enumerate(stages):
-            st.inp = pipes[i - 1] if i > 0 else None
-            st.out = pipes[i] if i < n - 1 else None
-            if st.kind != "pup" and st.out is not None:
-                st.out.opaque = True
-        line["_stages"] = stages
-        line["_pipes"] = pipes
+        flat = []
+        groups = []
+        for gi, g in enumerate(self.line_groups(line)):
+            G = Group(self.line_no, gi, bool(g.get("capture")), bool(g.get("bg")))
+            n = len(g["stages"])
+            single_builtin = n == 1 and g["stages"][0]["kind"] == "builtin"
+            G.pipes = [Pipe("L%d.%sp%d" % (self.line_no, "c%d." % gi if G.capture else "", i),
+                            [("stage", i)], [("stage", i + 1)]) for i in range(n - 1)]
+            if G.capture:
+                G.cap_out = Pipe("L%d.c%d.out" % (self.line_no, gi), [("stage", n - 1)], [("shell", 0)])
+                G.cap_err = Pipe("L%d.c%d.err" % (self.line_no, gi), [("stage", n - 1)], [("shell", 0)])
+            for i, spec in enumerate(g["stages"]):
+                st = Stage(spec, self.line_no, i, n)
+                st.group = G
+                st.inp = G.pipes[i - 1] if i > 0 else None
+                st.out = G.pipes[i] if i < n - 1 else None
+                if st.kind != "pup" and st.out is not None:
+                    st.out.opaque = True
+                st.in_process = single_builtin
+                G.stages.append(st)
+                if not single_builtin:
+                    flat.append(st)
+            groups.append(G)
+        line["_groups"] = groups
+        line["_outer"] = groups[-1]
+        line["_stages"] = groups[-1].stages
+        line["_fork_order"] = flat
         line["_next_fork"] = 0
         line["_launched"] = False
         line["_forks_failed"] = 0
         self.cur = line
         self.in_wait = False
         self.sim.ev("line", self.line_no, line["text"])
+
+    def mark_launched(self):
+        """called whenever the shell shows up again: groups whose last stage has been forked are now launched"""
+        line = self.cur
+        if line is None:
+            return
+        for G in line["_groups"]:
+            if G.fully_forked and not G.launched:
+                G.launched = True
+                if G is line["_outer"]:
+                    line["_launched"] = True
 
     def loop(self):
         sim = self.sim
@@ -254,6 +342,9 @@ class Runner:
                 raise HarnessError("runner loop does not terminate")
             ev = sim.shell_event()
             kind = ev[0]
+            if not (kind == "blocked" and ev[1] == "write"):
+                # (blocked writing a here-string: the parent has not released the stage's pipe ends yet)
+                self.mark_launched()
             if kind == "dead":
                 self.shell_died(ev[1])
                 return
@@ -270,6 +361,9 @@ class Runner:
                     sim.ev("pipe() fails", e)
                     if self.cur is not None:
                         self.cur["_pipe_failed"] = True
+                        G = self.current_group()
+                        if G is not None:
+                            G.pipe_failed = True
                     sim.shell_go("fail %d" % e)
                 else:
                     sim.shell_go()
@@ -284,16 +378,27 @@ class Runner:
                         self.note_fork_failed()
                         sim.shell_go("fail %d" % e)
                     else:
-                        sim.shell_go()
+                        extra = ""
+                        nxt = self.next_stage()
+                        if nxt is not None and not nxt.wired:
+                            self.wire_stage(nxt)
+                            self.attach(nxt)
+                            nxt.wired = True
+                            extra = self.fork_reply_extra(nxt)
+                        self.armed_open = bool(extra)
+                        sim.shell_go("go" + extra)
             elif w[0] == "fork=":
                 self.child_forked(int(w[1]))
-                sim.shell_go()
+                if getattr(self, "armed_open", False):
+                    # the plan was for the child only
+                    self.armed_open = False
+                    sim.shell_go("go openfail 0 0")
+                else:
+                    sim.shell_go()
             elif w[0] == "fork!":
                 sim.shell_go()
             elif w[0] == "wait?":
                 self.in_wait = True
-                if self.cur is not None:
-                    self.cur["_launched"] = True
                 if self.decide(shell_at="wait?"):
                     sim.shell_go()
             elif w[0] == "wait=":
@@ -312,18 +417,44 @@ class Runner:
                 raise HarnessError("unexpected shell message %r" % msg)
 
     # ---------------------------------------------------------------- children
+    def next_stage(self):
+        line = self.cur
+        if line is None:
+            return None
+        i = line["_next_fork"]
+        order = line["_fork_order"]
+        return order[i] if i < len(order) else None
+
+    def fork_reply_extra(self, st):
+        return ""
+
+    def current_group(self):
+        line = self.cur
+        if line is None:
+            return None
+        i = line["_next_fork"]
+        order = line["_fork_order"]
+        if i < len(order):
+            return order[i].group
+        return line["_outer"]
+
     def note_fork_failed(self):
         line = self.cur
         if line is None:
             return
         i = line["_next_fork"]
-        if i < len(line["_stages"]):
-            st = line["_stages"][i]
+        order = line["_fork_order"]
+        if i < len(order):
+            st = order[i]
             st.gone = True
             st.fork_failed = True
             self.stage_ended_io(st)
             line["_next_fork"] = i + 1
-            line["_forks_failed"] += 1
+            st.group.forks_failed += 1
+            if st.group is line["_outer"]:
+                line["_forks_failed"] += 1
+            if st is st.group.stages[-1]:
+                st.group.fully_forked = True
 
     def child_forked(self, pid):
         sim = self.sim
@@ -331,11 +462,17 @@ class Runner:
         if line is None:
             raise Violation("stage_started_twice", "a child was forked after the last line finished")
         i = line["_next_fork"]
-        exp = self.expected_children(line)
+        exp = line["_fork_order"]
         if i >= len(exp):
             raise Violation("stage_started_twice", "line %d forked more children than it has stages" % self.line_no)
         st = exp[i]
         line["_next_fork"] = i + 1
+        if st is st.group.stages[-1]:
+            st.group.fully_forked = True
+        if not st.wired:
+            self.wire_stage(st)
+            self.attach(st)
+            st.wired = True
         st.pid = pid
         st.started += 1
         self.stages[pid] = st
@@ -372,12 +509,43 @@ class Runner:
     def pup_did_not_start(self, st):
         raise Violation("stage_not_started", "%s never executed its program" % st.label())
 
-    def stage_ended_io(self, st):
-        """the process is gone: both of its pipe ends are closed"""
-        if st.inp is not None:
-            st.inp.reader_open = False
+    def wire_stage(self, st):
+        """what descriptors 0/1/2 of the stage should be (subclasses add redirections)"""
+        G = st.group
+        st.objs[0] = st.inp if st.inp is not None else Std(0)
         if st.out is not None:
-            st.out.writer_open = False
+            st.objs[1] = st.out
+        elif G.capture:
+            st.objs[1] = G.cap_out
+            st.out = G.cap_out
+        else:
+            st.objs[1] = Std(1)
+        st.objs[2] = G.cap_err if (G.capture and st.idx == st.n - 1) else Std(2)
+
+    def group_pipes(self, G):
+        out = list(G.pipes)
+        if G.cap_out is not None:
+            out += [G.cap_out, G.cap_err]
+        return out
+
+    def attach(self, st):
+        """the stage exists now: it holds exactly the pipe ends its descriptors 0/1/2 refer to"""
+        for p in self.group_pipes(st.group):
+            p.drop("stage", st.idx)
+        for fd, obj in st.objs.items():
+            if isinstance(obj, Pipe):
+                if fd == 0:
+                    obj.readers.add((st.label(), 0))
+                else:
+                    obj.writers.add((st.label(), fd))
+
+    def stage_ended_io(self, st):
+        """the process is gone (or was never created): none of its pipe ends is held any more"""
+        for p in self.group_pipes(st.group):
+            p.drop("stage", st.idx)
+            p.drop(st.label())
+        if st.hs is not None:
+            st.hs.drop(st.label())
 
     def refresh_free_children(self):
         if self.sim.settle_free_children():
@@ -472,6 +640,30 @@ class Runner:
                 steps.append("exit")
             elif r0 & R_READY:
                 steps.append("read")
+        elif t == "io":
+            # read (all | none | k bytes), then perform the writes, then exit
+            want = r.get("read", "none")
+            reading = (want == "all" and not st.eof) or (isinstance(want, int) and st.read_total < want and not st.eof)
+            ws = r.get("writes", [])
+            if reading:
+                if r0 & R_READY:
+                    steps.append("read")
+            elif st.epipe or st.wi >= len(ws):
+                steps.append("exit")
+            else:
+                fd = ws[st.wi]["fd"]
+                rr = pr[1] if fd == 1 else pr[2]
+                if rr & W_READY:
+                    steps.append("twrite")
+        elif t == "talker":
+            ws = r.get("writes", [])
+            if st.epipe or st.wi >= len(ws):
+                steps.append("exit")
+            else:
+                fd = ws[st.wi]["fd"]
+                rr = pr[1] if fd == 1 else pr[2]
+                if rr & W_READY:
+                    steps.append("twrite")
         else:
             steps.append("exit")
         return steps
@@ -574,22 +766,24 @@ class Runner:
         any more: a reader whose writers are all gone must see end-of-file at
         once, a writer whose reader is gone must see the pipe broken at once."""
         line = self.cur
-        if line is None or not line.get("_launched") or line.get("_forks_failed"):
+        if line is None:
             return
         for st in self.live_puppets():
             if st.line_no != self.line_no or st.stopped:
+                continue
+            if not st.group.launched or st.group.forks_failed:
                 continue
             pr = polls.get(st.pid)
             if pr is None:
                 continue
             t = st.role.get("t")
-            p = st.inp
-            if p is not None and not p.opaque and not p.writer_open and len(p.fifo) == 0 and not st.eof \
+            p = st.objs.get(0)
+            if isinstance(p, Pipe) and not p.opaque and not p.writer_open and len(p.fifo) == 0 and not st.eof \
                     and t in ("sink", "filter", "early") and not (pr[0] & R_READY):
                 raise Violation("eof_missing", "%s gets no end-of-file on %s although every writer is gone "
                                                "(some process still holds the write end)" % (st.label(), p.label))
-            p = st.out
-            if p is not None and not p.reader_open and not st.out_closed and t in ("source", "filter") \
+            p = st.objs.get(1)
+            if isinstance(p, Pipe) and not p.reader_open and not st.out_closed and t in ("source", "filter") \
                     and not (pr[1] & POLLERR):
                 raise Violation("epipe_missing", "%s can still write to %s although its reader is gone "
                                                  "(some process still holds the read end)" % (st.label(), p.label))
@@ -654,6 +848,35 @@ class Runner:
                 self.write_error(st, e)
             else:
                 raise HarnessError("puppet reply %r" % rep)
+        elif step == "twrite":
+            wspec = r["writes"][st.wi]
+            fd = wspec["fd"]
+            if "hex" in wspec:
+                data = bytes.fromhex(wspec["hex"])
+            else:
+                data = stream_bytes(wspec["seed"], 0, wspec["n"])
+            part = data[st.woff:st.woff + r.get("chunk", 65536)]
+            if "hex" in wspec:
+                rep = pup.rpc("writehex %d %s" % (fd, part.hex())).split() if part else ["wrote", "0", "0"]
+            else:
+                rep = pup.rpc("write %d %d %d %d" % (fd, len(part), wspec["seed"], st.woff)).split() if part else ["wrote", "0", "0"]
+            if rep[0] == "wrote":
+                done = int(rep[1])
+                self.model_write(st, part[:done], fd)
+                st.woff += done
+                sim.ev("step", st.label(), "write fd%d" % fd, done, "full" if rep[2] == "1" else "")
+                if rep[2] == "1":
+                    sim.probe("writer_blocked_on_full_pipe")
+                if st.woff >= len(data):
+                    st.wi += 1
+                    st.woff = 0
+            elif rep[0] == "err":
+                e, done = int(rep[1]), int(rep[2])
+                self.model_write(st, part[:done], fd)
+                sim.ev("step", st.label(), "write-error fd%d" % fd, e)
+                self.write_error(st, e)
+            else:
+                raise HarnessError("puppet reply %r" % rep)
         elif step == "fwd":
             rep = pup.rpc("writebuf 1").split()
             if rep[0] == "wrote":
@@ -676,6 +899,8 @@ class Runner:
             n = r.get("rchunk", 4096)
             if r.get("t") == "early":
                 n = max(1, min(n, r.get("k", 0) - st.read_total))
+            if r.get("t") == "io" and isinstance(r.get("read"), int):
+                n = max(1, min(n, r["read"] - st.read_total))
             rep = pup.rpc("read 0 %d %d" % (n, 1 if step == "readk" else 0)).split()
             if rep[0] == "data":
                 ln = int(rep[1])
@@ -685,8 +910,8 @@ class Runner:
                     if data is None:
                         # content from a writer that is not modelled: whatever is forwarded is not modelled either
                         data = b"\0" * ln
-                        if st.out is not None:
-                            st.out.opaque = True
+                        if isinstance(st.objs.get(1), Pipe):
+                            st.objs[1].opaque = True
                     st.buf += data
                 sim.ev("step", st.label(), "read", ln)
             elif rep[0] == "eof":
@@ -701,8 +926,8 @@ class Runner:
         elif step == "close_out":
             pup.rpc("close 1")
             st.out_closed = True
-            if st.out is not None:
-                st.out.writer_open = False
+            if isinstance(st.objs.get(1), Pipe):
+                st.objs[1].drop(st.label(), 1)
             sim.ev("step", st.label(), "close-stdout")
         elif step == "exit":
             code = r.get("code", 0)
@@ -735,9 +960,10 @@ class Runner:
         if e == 32:
             st.epipe = True
             self.sim.probe("epipe_seen")
-            if st.out is not None and st.out.reader_open and self.cur is not None and self.cur.get("_launched"):
-                raise Violation("stream_corrupt", "%s got EPIPE although its reader %s is alive" % (
-                    st.label(), st.out.label))
+            o = st.objs.get(1)
+            if isinstance(o, Pipe) and o.reader_open and st.group.launched:
+                raise Violation("stream_corrupt", "%s got EPIPE although the reader of %s is alive" % (
+                    st.label(), o.label))
         else:
             st.epipe = True
 
@@ -772,18 +998,34 @@ class Runner:
             self.wait_dirty = True
 
     # ---------------------------------------------------------------- stream model
-    def model_write(self, st, data):
-        p = st.out
-        if p is None or not data:
+    def model_write(self, st, data, fd=1):
+        obj = st.objs.get(fd)
+        if not data or obj is None:
             return
-        p.fifo += data
-        p.total += len(data)
-        if len(p.fifo) > PIPE_CAP:
-            self.sim.probe("more_than_a_pipe_buffer_in_flight")
+        if isinstance(obj, Pipe):
+            obj.fifo += data
+            obj.total += len(data)
+            if len(obj.fifo) > PIPE_CAP:
+                self.sim.probe("more_than_a_pipe_buffer_in_flight")
+        elif isinstance(obj, OFD):
+            f = self.files.setdefault(obj.path, bytearray())
+            pos = len(f) if obj.append else obj.off
+            if pos > len(f):
+                f += b"\0" * (pos - len(f))
+            f[pos:pos + len(data)] = data
+            obj.off = pos + len(data)
 
     def model_read(self, st, ln, got_crc):
-        p = st.inp
-        if p is None:
+        p = st.objs.get(0)
+        if isinstance(p, OFD):
+            f = self.files.get(p.path, bytearray())
+            data = bytes(f[p.off:p.off + ln])
+            if len(data) != ln or crc(data) != got_crc:
+                raise Violation("stream_corrupt", "%s read %d bytes from %s that are not the file's content at offset %d" % (
+                    st.label(), ln, os.path.basename(p.path), p.off))
+            p.off += ln
+            return data
+        if not isinstance(p, Pipe):
             return None
         if p.opaque:
             return None
@@ -798,8 +1040,14 @@ class Runner:
         return data
 
     def model_eof(self, st):
-        p = st.inp
-        if p is None:
+        p = st.objs.get(0)
+        if isinstance(p, OFD):
+            f = self.files.get(p.path, bytearray())
+            if p.off < len(f):
+                raise Violation("stream_corrupt", "%s saw end-of-file on %s at offset %d of %d" % (
+                    st.label(), os.path.basename(p.path), p.off, len(f)))
+            return
+        if not isinstance(p, Pipe):
             return
         if p.opaque:
             return
